@@ -324,7 +324,7 @@ func (d *dt1) returnsNormalised(f *ssa.Function) bool {
 		dominated := false
 		for _, sc := range sortCalls {
 			sv, _ := d.totalSort(sc)
-			if instrDominates(sc, r) && (d.c.canon(sv) == d.c.canon(rv) || sameSliceVar(sv, rv)) {
+			if instrDominates(sc, r) && (d.c.canon(sv) == d.c.canon(rv) || sameSliceVar(sv, rv)) && !grownAfter(sc, r, rv) {
 				dominated = true
 			}
 		}
@@ -950,7 +950,22 @@ func (d *dt1) taintedUses(f *ssa.Function, v ssa.Value, label string, depth int)
 	}
 	cleanAt := func(o ssa.Instruction) bool {
 		for _, s := range sorts {
-			if instrDominates(s, o) {
+			if !instrDominates(s, o) {
+				continue
+			}
+			// the sort is on every path to the observer; it launders the order only if no map-ordered element can be
+			// added AFTER it and reach the observer without passing it again (a second collecting loop below the sort)
+			after := false
+			if src == s.Block() {
+				if vin, ok := v.(ssa.Instruction); ok {
+					if _, isPhi := v.(*ssa.Phi); !isPhi && vin.Block() == src && instrIndex(vin) > instrIndex(s) {
+						after = true
+					}
+				}
+			} else if reach(s.Block(), nil, nil)[src] && (src == o.Block() || reach(src, nil, map[*ssa.BasicBlock]bool{s.Block(): true})[o.Block()]) {
+				after = true
+			}
+			if !after {
 				return true
 			}
 		}
@@ -1232,4 +1247,48 @@ func (d *dt1) orderFreeSearch(g *ssa.Function) bool {
 		}
 	})
 	return ok
+}
+
+// grownAfter: the returned slice rv is (a version of) the variable the sort sc ordered, but an append to it can execute
+// after the sort and before the return r: the elements added there - a second collecting loop below the sort - are not
+// ordered by it.
+func grownAfter(sc ssa.CallInstruction, r *ssa.Return, rv ssa.Value) bool {
+	seen := map[ssa.Value]bool{}
+	var walk func(x ssa.Value, d int) bool
+	walk = func(x ssa.Value, d int) bool {
+		x = resolve(x)
+		if x == nil || d > 16 || seen[x] {
+			return false
+		}
+		seen[x] = true
+		switch y := x.(type) {
+		case *ssa.Phi:
+			for _, e := range y.Edges {
+				if walk(e, d+1) {
+					return true
+				}
+			}
+		case *ssa.Call:
+			if calleeFullName(&y.Call) == "builtin append" {
+				if canReachInstr(sc, y) && canReachInstr(y, r) {
+					return true
+				}
+				return walk(y.Call.Args[0], d+1)
+			}
+		case *ssa.Slice:
+			return walk(y.X, d+1)
+		case *ssa.UnOp:
+			if y.Op == token.MUL {
+				if cell := cellOf(y.X); cell != nil {
+					for _, st := range cellStores(cell) {
+						if walk(st.Val, d+1) {
+							return true
+						}
+					}
+				}
+			}
+		}
+		return false
+	}
+	return walk(rv, 0)
 }
